@@ -26,6 +26,8 @@ RULE = ("fault enumeration: one fresh interpreter per (termination mode x statem
         "off => no artefact and no traceback from the exit hook on stderr, also when the script assigns runtime.operation (prove / keygen / verify, as the libsnark examples do) on a backend that has no use for it. Non-trivial = termination before the end by a "
         "failing mode, or a complete run; distinct by (mode, position, N, backend, autoprove). quick: N=3, positions "
         "{0,1,3}; thorough: every position for N in 1..6 (the space is finite and enumerated completely).")
+RULE += " Extensions (seeded rounds 10-15): runtime.operation assigned by the script, the library first imported by a helper thread, start-up modes (-i, -O, -c, -m, stdin, runpy), exception objects with unusual data models, sub-circuit calls on qaptools, scripts that run more or fewer statements than plain Python would."
+
 
 # mode -> (python source of the termination, expected exit status, script continues after it)
 MODES = {
